@@ -61,8 +61,8 @@ func (d *slidingWindowDetector) Check(seq uint64) (func() bool, bool) {
 			d.latestSeq = seq
 			latest = true
 		}
-		diff := (d.latestSeq - seq) % d.maxSeq
-		d.mask.SetBit(uint(diff))
+		// seq <= latestSeq here, and Check tested the very same bit.
+		d.mask.SetBit(uint(d.latestSeq - seq))
 
 		return latest
 	}, true
@@ -126,15 +126,18 @@ func (d *wrappedSlidingWindowDetector) Check(seq uint64) (func() bool, bool) {
 			d.latestSeq = latestSeq
 			d.init = true
 		}
-		latest := false
 		if diff < 0 {
 			// Update the head of the window.
 			d.mask.Lsh(uint(-diff))
 			d.latestSeq = seq
-			latest = true
-		}
-		d.mask.SetBit(uint(d.latestSeq - seq))
+			d.mask.SetBit(0)
 
-		return latest
+			return true
+		}
+		// Record the bit Check tested: the distance folded into the sequence
+		// space (latestSeq - seq underflows once the head has wrapped past 0).
+		d.mask.SetBit(uint(diff))
+
+		return false
 	}, true
 }
